@@ -386,7 +386,7 @@ def _run(res, tier, seed, proofs_ok, cov):
             meta.append((deck_text, args, conv.exc, verdict, made[1]))
 
     # ---- 2 + 3. generated decks: sweep and tie on the same runs ----
-    n_decks = 170 if tier == 'quick' else 1000
+    n_decks = 170 if tier == 'quick' else 1500
     for i in range(n_decks):
         dk, tags = gen.gen_deck(rng)
         deck_text = gen.render(dk)
@@ -538,7 +538,7 @@ def tables_stream(res, tier, rng):
     '''Malformed stream: synthetic tables (half of them outside every
     hypothesis) through the real tail + writeT4Geometry and through the model.'''
     import c08_tables as tab
-    n_tables = 150 if tier == 'quick' else 1000
+    n_tables = 150 if tier == 'quick' else 1500
     cases, meta = [], []
     for i in range(n_tables):
         tables = tab.gen_tables(rng, malformed=i % 2 == 1)
